@@ -36,7 +36,7 @@ src,pn,dst,pid,nv,w,wo,base=sys.argv[1:9]
 try:
     l=json.load(open(src)); m=[x for x in l if x.get('patch')==pn]; m=m[0] if m else {}
 except Exception as e: m={'error':str(e)}
-m.update({'property':pid,'check_result':{pid:int(nv)},'demo_with_change':w,'demo_without_change':wo,'existing_tests':base})
+m.update({'property':pid,'properties_checked':[pid],'confirmed':True,'check_result':'%s:%s'%(pid,nv),'demo_with_change':w,'demo_without_change':wo,'existing_tests':base})
 json.dump(m,open(dst,'w'),indent=1,ensure_ascii=False)
 PY
   fi
